@@ -1302,10 +1302,6 @@ class TimeSeries(TimeSeriesBase):
                     sampling_rate = Frequency(1.0 / sampling_interval,
                                               time_unit=time_unit)
 
-        #Calculate the duration, if that is not defined:
-        if duration is None:
-            duration = np.asarray(data).shape[-1] * sampling_interval
-
         if t0 is None:
             t0 = 0
 
@@ -1329,6 +1325,12 @@ class TimeSeries(TimeSeriesBase):
                                            time_unit=self.time_unit)
         self.t0 = TimeArray(t0, time_unit=self.time_unit)
         self.sampling_rate = sampling_rate
+        # Calculate the duration, if that is not defined, from the interval in
+        # whole base units (see UniformTime):
+        if duration is None:
+            duration = TimeArray(self.data.shape[-1] *
+                                 np.int64(self.sampling_interval),
+                                 time_unit=base_unit)
         self.duration = TimeArray(duration, time_unit=self.time_unit)
 
     def at(self, t, tol=None):
